@@ -1,5 +1,9 @@
 import Gimli.Lemmas.LineSeq
 import Gimli.Lemmas.LineHeader
+import Gimli.Lemmas.LineEncode
+import Gimli.Lemmas.LineHeaderRt
+import Gimli.Lemmas.LineHeaderV5
+import Gimli.Lemmas.LineNext
 /-!
 # C04 — Line-number rows equal the DWARF state machine; sequences are consistent
 
@@ -166,16 +170,41 @@ arithmetic), line_base −128..127, line_range 1..255, opcode_base 1..255 with a
 `standard_opcode_lengths`, unknown standard/extended opcodes, address sizes 1/2/4/8. -/
 theorem rows_refine (h : Params) (hv : h.Valid) (bs : Bytes) (prog : List Instr)
     (hdec : decodeAll h (bs.length + 1) bs = .ok prog) (hwf : WF h prog = true) :
-    run h bs = (rows h prog).map (fun r => Ev.row (toRow r)) := by
-  unfold run trace
-  rw [traceLoop_decodeAll h _ _ _ _ hdec, reset_new]
-  have hinit : Row.new h = toRow (init h) := by simp [Row.new, toRow, init]
-  have hmax1 : 1 ≤ h.maxOps := hv.2.2.2.2.2.1
-  rw [hinit, traceInstrs_spec h hv prog (init h) (by simp [init]; omega)
-    (by rw [regsOk_iff]; simp [init]; exact Nat.two_pow_pos _) hwf]
-  simp only [rows, List.filter_map, Ev.visible, Function.comp_def]
+    run h bs = (rows h prog).map (fun r => Ev.row (toRow r)) ∧
+    trace h bs = (rows h prog).map (fun r => Ev.row (toRow r)) := by
+  have htrace : trace h bs = (rows h prog).map (fun r => Ev.row (toRow r)) := by
+    unfold trace
+    rw [traceLoop_decodeAll h _ _ _ _ hdec, reset_new]
+    have hinit : Row.new h = toRow (init h) := by simp [Row.new, toRow, init]
+    have hmax1 : 1 ≤ h.maxOps := hv.2.2.2.2.2.1
+    rw [hinit, traceInstrs_spec h hv prog (init h) (by simp [init]; omega)
+      (by rw [regsOk_iff]; simp [init]; exact Nat.two_pow_pos _) hwf]
+    rfl
+  refine ⟨?_, htrace⟩
+  unfold run
+  rw [htrace]
+  simp only [List.filter_map, Ev.visible, Function.comp_def]
   congr 1
   exact List.filter_eq_self.mpr (fun _ _ => rfl)
+
+/-- … and the file table: the entries `DW_LNE_define_file` appends while the program runs are
+exactly the Spec's, in order -/
+theorem files_refine (h : Params) (bs : Bytes) (prog : List Instr)
+    (hdec : decodeAll h (bs.length + 1) bs = .ok prog) :
+    Line.definedFiles h (bs.length + 1) bs = Spec.Line.definedFiles prog :=
+  definedFiles_decodeAll h _ bs prog hdec
+
+/-- corollary: a well-formed program never runs into finding C04-1 — what the caller observes is
+monotone inside every sequence it can see -/
+theorem wf_monotone_observed (h : Params) (hv : h.Valid) (bs : Bytes) (prog : List Instr)
+    (hdec : decodeAll h (bs.length + 1) bs = .ok prog) (hwf : WF h prog = true) :
+    MonoObserved h.addrSize 0 (run h bs) := by
+  apply monotone_observed_partial
+  rw [(rows_refine h hv bs prog hdec hwf).2]
+  have : (rows h prog).map (fun r => Ev.row (toRow r)) = ((rows h prog).map toRow).map Ev.row := by
+    rw [List.map_map]; rfl
+  rw [this]
+  exact noHiddenEnd_map_row _
 
 /-! ### non-vacuity of `rows_refine`: concrete programs that decode, are well-formed, and whose
 matrix is what one computes by hand from §6.2 -/
@@ -211,7 +240,29 @@ example : (rows hdrVliw progV).map (fun r => (r.address, r.opIndex, r.line, r.en
     [(264, 1, 4, false), (292, 0, 6, false), (300, 1, 6, false), (328, 0, 3, false),
      (328, 0, 3, true)] := by decide
 example : run hdrVliw bytesV = (rows hdrVliw progV).map (fun r => Ev.row (toRow r)) :=
-  rows_refine hdrVliw (by decide) bytesV progV (by decide) (by decide)
+  (rows_refine hdrVliw (by decide) bytesV progV (by decide) (by decide)).1
+
+/-- **decode ∘ encode = id**: the decoder (`LineInstruction::parse`) inverts the §6.2.5 encoding
+of every instruction the header can express (`EncOk`: the opcode number is below `opcode_base` for
+standard opcodes, at or above it for special ones; operands fit; unknown standard opcodes carry the
+announced number of ULEB operands; extended opcodes of any length), whatever follows — standard,
+special, extended, unknown standard (0/1/N operands) and unknown extended opcodes, including
+`DW_LNS_advance_line` with every `i64` (signed LEB128 round trip, `Leb.signed_roundtrip`). -/
+theorem decode_encode (h : Params) (hv : h.Valid) (i : Instr) (hok : EncOk h i) (rest : Bytes) :
+    parseInstr h (encodeInstr h i ++ rest) = .ok (i, rest) :=
+  parseInstr_encode h hv i hok rest
+
+/-- **Rows refine the Spec, from the abstract program.** For every valid header and every
+instruction list that is expressible (`EncOk`) and well-formed (`WF`), running the implementation's
+model over the §6.2.5 *encoding* of the program yields exactly the rows of the §6.2 machine. -/
+theorem rows_refine_encoded (h : Params) (hv : h.Valid) (prog : List Instr)
+    (henc : ∀ i ∈ prog, EncOk h i) (hwf : WF h prog = true) :
+    run h (encodeProg h prog) = (rows h prog).map (fun r => Ev.row (toRow r)) := by
+  refine (rows_refine h hv _ prog ?_ hwf).1
+  exact decodeAll_encodeProg h hv prog henc _ (by have := encodeProg_length h prog; omega)
+
+example : ∀ i ∈ prog4, EncOk hdr4 i := by decide
+example : ∀ i ∈ progV, EncOk hdrVliw i := by decide
 
 /-! ## "Splitting a program into sequences and resuming any sequence yields exactly the rows a
 straight run yields for it, and each sequence's reported address bounds are its first and end
@@ -250,14 +301,30 @@ theorem sequences_start_partial (h : Params) (bs : Bytes) (seqs : List Seq)
   | nil => rw [a] at hlen; simp at hlen
   | cons r rs => exact ⟨r, by rw [a]; simp, e⟩
 
-/-- and in every case `start ≤ end` fails only through finding C04-1: here is the exact content of
-`start` for the end-row-only sequence. **Finding C04-2, pinned**: `set_address 0x1000;
-end_sequence` is reported as the sequence `[0, 0x1000)` although its only row is at 0x1000. -/
+/-- **Finding C04-2, pinned**: `set_address 0x1000; end_sequence` is reported as the sequence
+`[0, 0x1000)` although its only row is at 0x1000. -/
 theorem sequences_start_counterexample :
     sequences hdr4 [0, 9, 2, 0, 0x10, 0, 0, 0, 0, 0, 0,  0, 1, 1] =
       .ok [{ start := 0, «end» := 0x1000,
              instructions := [0, 9, 2, 0, 0x10, 0, 0, 0, 0, 0, 0,  0, 1, 1] }] := by
   decide
+
+/-- **Ordered bounds** — partial: `start ≤ end` for every reported sequence inside which no
+`end_sequence` was swallowed (finding C04-1 is the only way to get `start > end`). -/
+theorem sequences_ordered_partial (h : Params) (bs : Bytes) (seqs : List Seq)
+    (hs : sequences h bs = .ok seqs) (s : Seq) (hmem : s ∈ seqs)
+    (hne : NoHiddenEnd (trace h s.instructions)) : s.start ≤ s.end := by
+  obtain ⟨_, _, _, h3⟩ := sequences_spec h bs seqs hs
+  obtain ⟨rows, last, a, _, c, d, e⟩ := h3 s hmem
+  have hm := monotone_observed_partial h s.instructions hne
+  unfold resume at a
+  rw [a] at hm
+  obtain ⟨h1, h2⟩ := monoObserved_last _ rows last 0 c hm
+  rw [d, e]
+  cases rows with
+  | nil => simp
+  | cons r rs => exact h2 r List.mem_cons_self
+
 
 /-- non-vacuity: a program with two sequences and trailing rows -/
 example : (sequences hdr4 (bytes4 ++ [1, 1])).map (fun ss => ss.map (fun s => (s.start, s.end))) =
@@ -271,6 +338,15 @@ instruction consumes at least one byte. -/
 theorem run_total (h : Params) (bs : Bytes) : Ev.stuck ∉ trace h bs ∧ Ev.stuck ∉ run h bs := by
   have h1 : Ev.stuck ∉ trace h bs := traceLoop_not_stuck h _ _ bs (by omega)
   exact ⟨h1, fun hm => h1 (List.mem_filter.mp hm).1⟩
+
+/-- **The trace is the API**: a caller that constructs `LineRows` (registers `LineRow::new`) and
+calls `next_row()` until it returns `Ok(None)` receives, call by call, exactly `run h bs` — the
+list all theorems above are about (`nextRow` mirrors one call: reset, then the loop with tombstone
+suppression; a parse error empties the input; an `execute` error is returned and the next call
+goes on). -/
+theorem next_row_iteration (h : Params) (bs : Bytes) :
+    collect h (bs.length + 1) (Row.new h) bs = run h bs :=
+  collect_eq_run h _ _ bs (by omega)
 
 /-- `LineInstruction::parse` returns an instruction or an error on every input and header, and a
 successful parse consumes at least one byte and does not depend on what follows the instruction -/
@@ -305,5 +381,69 @@ because a format without exactly one `DW_LNCT_path` is rejected — and no non-t
 theorem header_total (e : Endian) (sec : Bytes) (off asz : Nat) (cd cn : Option Bytes) :
     (program e sec off asz cd cn).Normal :=
   program_normal e sec off asz cd cn
+
+/-- **Header round trip, versions 2–4.** For every well-formed abstract header
+(`HeaderV4.WF`: valid parameters, non-empty NUL-free directory and file names, `u64` file
+attributes, lengths that fit their fields), either format, either byte order, any
+`standard_opcode_lengths`: parsing its §6.2.4 encoding (followed by anything) returns exactly its
+parameters, its include directories, its file table (name, directory index, time, size), its
+program bytes, and the caller's `comp_dir`/`comp_name` as directory 0 / file 0. (Version 5:
+`header_roundtrip_v5`.) -/
+theorem header_roundtrip (hs : HeaderV4) (hwf : hs.WF) (cd cn : Option Bytes)
+    (bytes trailing : Bytes) (henc : encodeHeaderV4 hs = .ok bytes) :
+    parseHeader hs.p.endian hs.p.addrSize cd cn (bytes ++ trailing) = .ok (hs.expected cd cn) :=
+  parseHeader_encodeV4 hs hwf cd cn bytes trailing henc
+
+/-- and the table lookups on what was read back: directory/file index 0 is the compilation
+directory / primary file, index `i ≥ 1` the `i`-th entry (versions 2–4) -/
+theorem header_lookup_v4 (hs : HeaderV4) (cd cn : Option Bytes) (hver : hs.p.version ≤ 4) (i : Nat) :
+    (hs.expected cd cn).directory 0 = cd.map .string ∧
+    (hs.expected cd cn).directory (i + 1) = (hs.dirs.map AttrVal.string)[i]? ∧
+    ((hs.expected cd cn).file 0).map (·.path) = cn.map .string ∧
+    (hs.expected cd cn).file (i + 1) = (hs.expected cd cn).files[i]? := by
+  simp [Header.directory, Header.file, HeaderV4.expected, hver]
+  cases cn <;> simp
+
+/-- non-vacuity: a version-3, 64-bit-format, big-endian header with two directories and two files -/
+def hdrEx : HeaderV4 where
+  p := { hdr4 with endian := .big, format := .dwarf64, version := 3, addrSize := 4 }
+  dirs := [[0x2f, 0x61], [0x62]]
+  files := [([0x78, 0x2e, 0x63], 1, 0, 0), ([0x79], 2, 0x1234, 300)]
+  program := [0, 1, 1]
+
+example : hdrEx.WF := by decide
+example : (encodeHeaderV4 hdrEx).isOk = true := by decide
+
+/-- **Header round trip, version 5.** For every well-formed abstract version-5 header
+(`HeaderV5.WF`: valid parameters; `directory_entry_format` and `file_name_entry_format` with up to
+255 fields, any content types that fit `u16` — known, unknown, vendor —, exactly one
+`DW_LNCT_path`; any number of entries, each written field by field in the announced form, over
+*all* forms the line reader accepts: block1/2/4/block, data1/2/4/8/16, udata, sdata, flag,
+sec_offset, string, strp, strp_sup, GNU_strp_alt, line_strp, strx, GNU_str_index, strx1–4; either
+format and byte order): parsing the §6.2.4 encoding returns exactly the parameters (address size
+from the header itself), both format tables, the directory of every entry (its `DW_LNCT_path`
+value), the file of every entry (fields applied left to right: path, directory index, timestamp,
+size, MD5, source; unknown content types skipped) and the program bytes; `comp_dir`/`comp_name`
+are ignored. The field semantics (`FileAcc.update`) is shared between Model and Spec; what the
+theorem adds is that the byte-level decoding of formats, counts and every form is exact. -/
+theorem header_roundtrip_v5 (hs : HeaderV5) (hwf : hs.WF) (asz : Nat) (cd cn : Option Bytes)
+    (bytes trailing : Bytes) (henc : encodeHeaderV5 hs = .ok bytes) :
+    parseHeader hs.p.endian asz cd cn (bytes ++ trailing) = .ok hs.expected :=
+  parseHeader_encodeV5 hs hwf asz cd cn bytes trailing henc
+
+/-- non-vacuity: directories (path as `line_strp`, plus an unknown vendor content type as `udata`),
+files with path/`string`, directory index/`udata`, MD5/`data16`, size/`data2`, timestamp/`sdata` -/
+def hdrEx5 : HeaderV5 where
+  p := hdrVliw
+  dirFormat := [(0x2002, 0x0f), (1, 0x1f)]
+  dirs := [[.udata 7, .lineStrp 0], [.udata 300, .lineStrp 0x1234]]
+  fileFormat := [(1, 0x08), (2, 0x0f), (5, 0x1e), (4, 0x05), (3, 0x0d)]
+  files := [[.string [0x61, 0x2e, 0x63], .udata 1, .data16 (List.replicate 16 0xab), .data2 515, .sdata 99],
+            [.string [0x62], .udata 0, .data16 (List.replicate 16 1), .data2 0, .sdata (-1)]]
+  program := [0, 1, 1]
+
+example : hdrEx5.WF := by decide +kernel
+example : hdrEx5.expected.files.map (fun f => (f.dirIndex, f.size, f.timestamp)) = [(1, 515, 99), (0, 0, 0)] := by
+  decide +kernel
 
 end Gimli.Props.C04
